@@ -285,3 +285,595 @@ func RNoWrap(c *core.Ctx) {
 		c.Anchor("functions of package regexp2 with a time.Duration parameter")
 	}
 }
+
+// ---------------------------------------------------------------------------
+// R-KEEPLOOK: only what consumes no text can stand between the match start
+// and a "leading" lookahead.
+// findLeadingPositiveLookahead answers (lookahead, keepLooking).  keepLooking
+// tells the Concatenate arm to go on to the next sibling; it may be true only
+// for a node that cannot consume a character — an optional group CAN, and a
+// lookahead found behind it does not describe the text at the match start.
+// ---------------------------------------------------------------------------
+
+func RKeepLook(c *core.Ctx) {
+	c.Rule("R-KEEPLOOK", "in findLeadingPositiveLookahead the second result (keep looking at the next sibling) is the constant true only in switch arms whose node kinds consume no text (anchors, assertions, Empty), and in the Concatenate arm after all children were examined: the prefilter built from the lookahead is applied at the candidate start, so nothing that can match characters — an optional loop included — may lie in front of it", 2)
+	p := c.P
+	syn := p.Pkg("syntax")
+	info := syn.TypesInfo
+	fn := p.LookupFunc("syntax", "findLeadingPositiveLookahead")
+	fd, _ := p.DeclOf(fn)
+	if fd == nil {
+		c.Anchor("syntax.findLeadingPositiveLookahead")
+		return
+	}
+	c.Visit("syntax.findLeadingPositiveLookahead")
+	n := 0
+	mayBeTrue := func(e ast.Expr) bool {
+		tv, ok := info.Types[e]
+		return !ok || tv.Value == nil || tv.Value.String() != "false"
+	}
+	ast.Inspect(fd.Body, func(x ast.Node) bool {
+		cc, ok := x.(*ast.CaseClause)
+		if !ok {
+			return true
+		}
+		var kinds []string
+		for _, e := range cc.List {
+			if id, ok := ast.Unparen(e).(*ast.Ident); ok {
+				if k, ok := info.ObjectOf(id).(*types.Const); ok {
+					kinds = append(kinds, core.BaseName(k))
+				}
+			}
+		}
+		label := "default"
+		if cc.List != nil {
+			label = fmt.Sprint(kinds)
+		}
+		// the returns of this arm (not of nested function literals)
+		var rets []*ast.ReturnStmt
+		hasChildLoop := false
+		for _, st := range cc.Body {
+			ast.Inspect(st, func(y ast.Node) bool {
+				switch z := y.(type) {
+				case *ast.FuncLit:
+					return false
+				case *ast.ReturnStmt:
+					rets = append(rets, z)
+				case *ast.ForStmt, *ast.RangeStmt:
+					ast.Inspect(z, func(w ast.Node) bool {
+						if call, ok := w.(*ast.CallExpr); ok && core.Callee(info, call) == fn {
+							hasChildLoop = true
+						}
+						return true
+					})
+				}
+				return true
+			})
+		}
+		for _, rs := range rets {
+			if len(rs.Results) != 2 || !mayBeTrue(rs.Results[1]) {
+				continue
+			}
+			n++
+			key := fmt.Sprintf("findLeadingPositiveLookahead / arm %s may answer keep-looking #%d", label, n)
+			bad := ""
+			for _, k := range kinds {
+				if k == "NtConcatenate" {
+					if !hasChildLoop {
+						bad = "the Concatenate arm answers keep-looking without a loop that examines its children"
+					}
+					continue
+				}
+				if _, ok := zeroWidthKinds[k]; !ok {
+					bad = k + " can consume characters (an optional loop too: its minimum of 0 does not stop it from matching)"
+				}
+			}
+			if cc.List == nil {
+				bad = "the default arm covers every kind that consumes text"
+			}
+			if bad != "" {
+				c.Bad(key, rs.Pos(), "%s: a lookahead found behind it is not at the match start, and the candidate search, prefix and minimum length derived from it skip real matches", bad)
+			} else {
+				c.OK(key, rs.Pos(), "kinds %s consume no text", label)
+			}
+		}
+		return true
+	})
+	if n == 0 {
+		c.Anchor("arms of findLeadingPositiveLookahead that answer keep-looking")
+	}
+}
+
+// ---------------------------------------------------------------------------
+// R-ENUMPOS: the range list of a negated class is what the class does NOT
+// match.  A helper that walks the `ranges` of a class argument without looking
+// at its negation (mayOverlapByEnumeration) enumerates the members only of a
+// class that is not negated; MayOverlap calls it only where both classes are
+// known to be positive.
+// ---------------------------------------------------------------------------
+
+func REnumPos(c *core.Ctx) {
+	c.Rule("R-ENUMPOS", "in CharSet.MayOverlap every call of a helper that walks the raw range list of one of its class arguments without consulting that argument's negation passes, in that position, a class known not to be negated on every path to the call (early returns on IsNegated / on the two negations differing): the raw ranges of a negated class are the characters it excludes, and testing those for membership in the other class answers the opposite question", 2)
+	p := c.P
+	syn := p.Pkg("syntax")
+	info := syn.TypesInfo
+	mo := p.LookupFunc("syntax", "CharSet.MayOverlap")
+	fd, _ := p.DeclOf(mo)
+	ranges := p.LookupField("syntax", "CharSet", "ranges")
+	negate := p.LookupField("syntax", "CharSet", "negate")
+	isNeg := p.LookupFunc("syntax", "CharSet.IsNegated")
+	if fd == nil || ranges == nil || negate == nil || isNeg == nil {
+		c.Anchor("syntax.CharSet.MayOverlap / ranges / negate / IsNegated")
+		return
+	}
+	c.Visit("syntax.(*CharSet).MayOverlap")
+	// which parameters of a callee are walked raw?
+	rawParams := func(fn *types.Func) []int {
+		d, _ := p.DeclOf(fn)
+		if d == nil || d.Body == nil {
+			return nil
+		}
+		var params []types.Object
+		if d.Recv != nil {
+			for _, f := range d.Recv.List {
+				for _, id := range f.Names {
+					params = append(params, info.ObjectOf(id))
+				}
+			}
+		}
+		nRecv := len(params)
+		for _, f := range d.Type.Params.List {
+			for _, id := range f.Names {
+				params = append(params, info.ObjectOf(id))
+			}
+		}
+		var out []int
+		for i, prm := range params {
+			if prm == nil {
+				continue
+			}
+			readsRanges, looksNeg := false, false
+			ast.Inspect(d.Body, func(x ast.Node) bool {
+				switch y := x.(type) {
+				case *ast.SelectorExpr:
+					if id, ok := ast.Unparen(y.X).(*ast.Ident); ok && info.ObjectOf(id) == prm {
+						switch core.FieldOf(info, y) {
+						case ranges:
+							readsRanges = true
+						case negate:
+							looksNeg = true
+						}
+						if sel := info.Selections[y]; sel != nil && sel.Kind() == types.MethodVal {
+							// any method of the class other than plain accessors may consult the negation
+							if f, ok := sel.Obj().(*types.Func); ok && f != nil && f.Origin() != nil {
+								looksNeg = true
+							}
+						}
+					}
+				case *ast.CallExpr:
+					// the parameter handed on whole to something else
+					for _, a := range y.Args {
+						if id, ok := ast.Unparen(a).(*ast.Ident); ok && info.ObjectOf(id) == prm {
+							looksNeg = true
+						}
+					}
+				}
+				return true
+			})
+			if readsRanges && !looksNeg {
+				out = append(out, i-nRecv) // index among the call's arguments (-1: receiver)
+			}
+		}
+		return out
+	}
+	// path facts about "is negated" booleans
+	type facts struct {
+		isFalse map[types.Object]bool            // class object known not negated
+		eq      map[[2]types.Object]bool         // the two classes have the same negation
+	}
+	clone := func(f facts) facts {
+		g := facts{isFalse: map[types.Object]bool{}, eq: map[[2]types.Object]bool{}}
+		for k := range f.isFalse {
+			g.isFalse[k] = true
+		}
+		for k := range f.eq {
+			g.eq[k] = true
+		}
+		return g
+	}
+	negLocal := map[types.Object]types.Object{} // bool local -> class object
+	classOf := func(e ast.Expr) types.Object {
+		e = ast.Unparen(e)
+		if id, ok := e.(*ast.Ident); ok {
+			if o, ok := negLocal[info.ObjectOf(id)]; ok {
+				return o
+			}
+		}
+		if call, ok := e.(*ast.CallExpr); ok && core.Callee(info, call) == isNeg {
+			if sel, ok := ast.Unparen(call.Fun).(*ast.SelectorExpr); ok {
+				if id, ok := ast.Unparen(sel.X).(*ast.Ident); ok {
+					return info.ObjectOf(id)
+				}
+			}
+		}
+		return nil
+	}
+	// assume cond has the truth value val
+	var assume func(f facts, cond ast.Expr, val bool)
+	assume = func(f facts, cond ast.Expr, val bool) {
+		cond = ast.Unparen(cond)
+		switch x := cond.(type) {
+		case *ast.UnaryExpr:
+			if x.Op == token.NOT {
+				assume(f, x.X, !val)
+			}
+			return
+		case *ast.BinaryExpr:
+			switch x.Op {
+			case token.LAND:
+				if val {
+					assume(f, x.X, true)
+					assume(f, x.Y, true)
+				}
+			case token.LOR:
+				if !val {
+					assume(f, x.X, false)
+					assume(f, x.Y, false)
+				}
+			case token.EQL, token.NEQ:
+				a, b := classOf(x.X), classOf(x.Y)
+				if a != nil && b != nil && (x.Op == token.EQL) == val {
+					f.eq[[2]types.Object{a, b}] = true
+					f.eq[[2]types.Object{b, a}] = true
+				}
+			}
+			return
+		}
+		if o := classOf(cond); o != nil && !val {
+			f.isFalse[o] = true
+		}
+	}
+	known := func(f facts, o types.Object) bool {
+		if f.isFalse[o] {
+			return true
+		}
+		for k := range f.eq {
+			if k[0] == o && f.isFalse[k[1]] {
+				return true
+			}
+		}
+		return false
+	}
+	endsInReturn := func(b *ast.BlockStmt) bool {
+		if b == nil || len(b.List) == 0 {
+			return false
+		}
+		_, ok := b.List[len(b.List)-1].(*ast.ReturnStmt)
+		return ok
+	}
+	n := 0
+	checkCalls := func(node ast.Node, f facts) {
+		ast.Inspect(node, func(x ast.Node) bool {
+			if _, ok := x.(*ast.BlockStmt); ok && x != node {
+				return false // nested blocks are walked with their own facts
+			}
+			call, ok := x.(*ast.CallExpr)
+			if !ok {
+				return true
+			}
+			cal := core.Callee(info, call)
+			if cal == nil || cal.Pkg() != syn.Types || cal == mo {
+				return true
+			}
+			for _, idx := range rawParams(cal) {
+				var arg ast.Expr
+				if idx < 0 {
+					if sel, ok := ast.Unparen(call.Fun).(*ast.SelectorExpr); ok {
+						arg = sel.X
+					}
+				} else if idx < len(call.Args) {
+					arg = call.Args[idx]
+				}
+				id, ok := ast.Unparen(arg).(*ast.Ident)
+				if !ok {
+					continue
+				}
+				n++
+				key := fmt.Sprintf("MayOverlap / call #%d of %s walks the ranges of a class known to be positive", n, core.BaseName(cal))
+				if known(f, info.ObjectOf(id)) {
+					c.OK(key, call.Pos(), "`%s`: %s is not negated on every path to the call", types.ExprString(call), id.Name)
+				} else {
+					c.Bad(key, call.Pos(), "`%s` walks %s.ranges although %s may be a negated class here: its ranges are the characters it does NOT match, so `[a-c]+[^xy]` looks disjoint and the loop in front loses its backtracking", types.ExprString(call), id.Name, id.Name)
+				}
+			}
+			return true
+		})
+	}
+	var walk func(list []ast.Stmt, f facts)
+	walk = func(list []ast.Stmt, f facts) {
+		for _, st := range list {
+			switch s := st.(type) {
+			case *ast.AssignStmt:
+				if len(s.Lhs) == 1 && len(s.Rhs) == 1 {
+					if id, ok := s.Lhs[0].(*ast.Ident); ok {
+						if call, ok := ast.Unparen(s.Rhs[0]).(*ast.CallExpr); ok && core.Callee(info, call) == isNeg {
+							if o := classOf(call); o != nil {
+								negLocal[info.ObjectOf(id)] = o
+							}
+						}
+					}
+				}
+				checkCalls(s, f)
+			case *ast.IfStmt:
+				checkCalls(s.Cond, f)
+				then := clone(f)
+				assume(then, s.Cond, true)
+				walk(s.Body.List, then)
+				els := clone(f)
+				assume(els, s.Cond, false)
+				switch e := s.Else.(type) {
+				case *ast.BlockStmt:
+					walk(e.List, els)
+				case *ast.IfStmt:
+					walk([]ast.Stmt{e}, els)
+				}
+				if endsInReturn(s.Body) {
+					// only the else outcome continues
+					for k := range els.isFalse {
+						f.isFalse[k] = true
+					}
+					for k := range els.eq {
+						f.eq[k] = true
+					}
+				}
+			case *ast.BlockStmt:
+				walk(s.List, f)
+			default:
+				checkCalls(st, f)
+			}
+		}
+	}
+	walk(fd.Body.List, facts{isFalse: map[types.Object]bool{}, eq: map[[2]types.Object]bool{}})
+	if n == 0 {
+		c.Anchor("calls in MayOverlap of helpers that walk a class argument's raw ranges")
+	}
+}
+
+// ---------------------------------------------------------------------------
+// R-OFFTABLE: byte positions of text that was handed over as runes come from
+// the offset table that was built while decoding.
+// readRunes / bytesToRunesAndOffsets return the runes AND the byte offset of
+// every rune as the source delivered it (a reader may report sizes that are
+// not the UTF-8 width: invalid bytes, other encodings).  An adapter method that
+// answers with byte indexes uses that table; Capture.ByteRange of a rune-input
+// match assumes every rune is a well-formed UTF-8 sequence.
+// ---------------------------------------------------------------------------
+
+func ROffTable(c *core.Ctx) {
+	c.Rule("R-OFFTABLE", "in package compat every function that answers with byte indexes ([]int, [][]int) and decodes its input through a helper returning (runes, offsets, …) uses the offsets result: it is never discarded in favour of positions recomputed from the runes", 2)
+	p := c.P
+	isSliceOf := func(t types.Type, kind types.BasicKind) bool {
+		sl, ok := t.Underlying().(*types.Slice)
+		if !ok {
+			return false
+		}
+		b, ok := sl.Elem().Underlying().(*types.Basic)
+		return ok && b.Kind() == kind
+	}
+	answersIndexes := func(fn *ssa.Function) bool {
+		res := fn.Signature.Results()
+		for i := 0; i < res.Len(); i++ {
+			t := res.At(i).Type()
+			if isSliceOf(t, types.Int) {
+				return true
+			}
+			if sl, ok := t.Underlying().(*types.Slice); ok && isSliceOf(sl.Elem(), types.Int) {
+				return true
+			}
+		}
+		return false
+	}
+	n := 0
+	for _, fn := range compatFuncs(p) {
+		if !answersIndexes(fn) {
+			continue
+		}
+		name := core.SSAName(fn)
+		ord := 0
+		for _, b := range fn.Blocks {
+			for _, ins := range b.Instrs {
+				call, ok := ins.(*ssa.Call)
+				if !ok {
+					continue
+				}
+				cal := call.Call.StaticCallee()
+				if cal == nil || core.FnPkgPath(cal) != core.PkgCompat {
+					continue
+				}
+				res := cal.Signature.Results()
+				if res.Len() < 2 || !isSliceOf(res.At(0).Type(), types.Int32) || !isSliceOf(res.At(1).Type(), types.Int) {
+					continue
+				}
+				n++
+				ord++
+				c.Visit(name)
+				used := false
+				for _, r := range core.Referrers(call) {
+					if ex, ok := r.(*ssa.Extract); ok && ex.Index == 1 && len(core.Referrers(ex)) > 0 {
+						used = true
+					}
+				}
+				key := fmt.Sprintf("%s / the offset table of %s call #%d is used", name, core.BaseName(cal), ord)
+				if used {
+					c.OK(key, call.Pos(), "the []int result of %s is read", core.BaseName(cal))
+				} else {
+					c.Bad(key, call.Pos(), "the offset table returned by %s is discarded although the function answers with byte indexes: positions recomputed from the runes (ByteRange) are right only when every rune arrived as its own well-formed UTF-8 sequence (a reader delivering an invalid byte reports size 1 for U+FFFD)", core.BaseName(cal))
+				}
+			}
+		}
+	}
+	if n == 0 {
+		c.Anchor("compat functions answering byte indexes that decode through a (runes, offsets) helper")
+	}
+}
+
+// ---------------------------------------------------------------------------
+// R-MAPOK: a missing entry of a group table does not read as group 0.
+// Regexp.caps (number -> slot) and Regexp.capnames (name -> number) are
+// sparse: ECMAScript leaves unnamed groups without a name, explicit numbers
+// leave holes.  m[k] on a missing key is 0, which is a valid group; every read
+// of these tables in package regexp2 therefore uses the comma-ok form.
+// ---------------------------------------------------------------------------
+
+func RMapOK(c *core.Ctx) {
+	c.Rule("R-MAPOK", "in package regexp2 every read of the map fields Regexp.caps and Regexp.capnames is a comma-ok lookup (or a range over the map): a key that is not in the table must not silently read as 0, which is the number of the whole-match group", 2)
+	p := c.P
+	pk := p.Pkg("")
+	info := pk.TypesInfo
+	fields := map[*types.Var]string{}
+	for _, nm := range []string{"caps", "capnames"} {
+		if f := p.LookupField("", "Regexp", nm); f != nil {
+			if _, ok := f.Type().Underlying().(*types.Map); ok {
+				fields[f] = nm
+			}
+		}
+	}
+	if len(fields) != 2 {
+		c.Anchor("regexp2.Regexp.caps / capnames (map fields)")
+		return
+	}
+	n := 0
+	for _, fd := range p.FuncDecls(pk) {
+		if fd.Body == nil || p.IsTestFile(fd.Pos()) {
+			continue
+		}
+		name := core.DeclName(pk, fd)
+		ord := 0
+		// index expressions that are the target of an assignment are writes
+		writes := map[ast.Expr]bool{}
+		ast.Inspect(fd.Body, func(x ast.Node) bool {
+			if as, ok := x.(*ast.AssignStmt); ok {
+				for _, l := range as.Lhs {
+					writes[ast.Unparen(l)] = true
+				}
+			}
+			return true
+		})
+		ast.Inspect(fd.Body, func(x ast.Node) bool {
+			ix, ok := x.(*ast.IndexExpr)
+			if !ok || writes[ix] {
+				return true
+			}
+			f := core.FieldOf(info, ix.X)
+			nm, ok := fields[f]
+			if !ok {
+				return true
+			}
+			n++
+			ord++
+			c.Visit(name)
+			key := fmt.Sprintf("%s / read #%d of Regexp.%s is a comma-ok lookup", name, ord, nm)
+			tv := info.Types[ix]
+			if _, isTuple := tv.Type.(*types.Tuple); isTuple {
+				c.OK(key, ix.Pos(), "`%s` in comma-ok form", types.ExprString(ix))
+			} else {
+				c.Bad(key, ix.Pos(), "`%s` reads 0 for a key that is not in the table, and 0 is the number of group 0: a nameless (ECMAScript) or unknown group is reported as the whole match", types.ExprString(ix))
+			}
+			return true
+		})
+	}
+	if n == 0 {
+		c.Anchor("reads of Regexp.caps / Regexp.capnames")
+	}
+}
+
+// ---------------------------------------------------------------------------
+// R-DIGITNAME: a group is addressed by number only through a string of
+// decimal digits.  GetGroupNames lists "0", "1", … for unnamed groups;
+// GroupNumberFromName must accept exactly those spellings.  strconv.Atoi /
+// ParseInt also accept a sign ("+1", "-0"), names the pattern never defined.
+// ---------------------------------------------------------------------------
+
+func RDigitName(c *core.Ctx) {
+	c.Rule("R-DIGITNAME", "GroupNumberFromName reads a name as a number only when it consists of decimal digits: the bytes of the name are compared with '0' and '9' (or parsed by an unsigned parser); no signed parser (strconv.Atoi, strconv.ParseInt) is applied to the name", 1)
+	p := c.P
+	fn := p.SSAFunc(p.LookupFunc("", "Regexp.GroupNumberFromName"))
+	if fn == nil || len(fn.Params) < 2 {
+		c.Anchor("regexp2.Regexp.GroupNumberFromName")
+		return
+	}
+	c.Visit(core.SSAName(fn))
+	nameP := fn.Params[1]
+	fromName := func(v ssa.Value) bool {
+		for d := 0; d < 4 && v != nil; d++ {
+			switch x := v.(type) {
+			case *ssa.Parameter:
+				return x == nameP
+			case *ssa.Lookup:
+				v = x.X
+			case *ssa.Index:
+				v = x.X
+			case *ssa.Convert:
+				v = x.X
+			case *ssa.ChangeType:
+				v = x.X
+			case *ssa.Slice:
+				v = x.X
+			case *ssa.Extract:
+				if nx, ok := x.Tuple.(*ssa.Next); ok {
+					if rg, ok := nx.Iter.(*ssa.Range); ok {
+						v = rg.X
+						continue
+					}
+				}
+				return false
+			default:
+				return false
+			}
+		}
+		return false
+	}
+	var signed token.Pos
+	signedWhat := ""
+	lo, hi, unsignedParse := false, false, false
+	for _, b := range fn.Blocks {
+		for _, ins := range b.Instrs {
+			switch x := ins.(type) {
+			case *ssa.Call:
+				if cal := x.Call.StaticCallee(); cal != nil && cal.Pkg != nil && cal.Pkg.Pkg.Path() == "strconv" && len(x.Call.Args) > 0 && fromName(x.Call.Args[0]) {
+					switch cal.Name() {
+					case "Atoi", "ParseInt":
+						signed, signedWhat = x.Pos(), "strconv."+cal.Name()
+					case "ParseUint":
+						unsignedParse = true
+					}
+				}
+			case *ssa.BinOp:
+				switch x.Op {
+				case token.LSS, token.LEQ, token.GTR, token.GEQ:
+					for _, pr := range [][2]ssa.Value{{x.X, x.Y}, {x.Y, x.X}} {
+						if k, ok := pr[1].(*ssa.Const); ok && k.Value != nil && k.Value.Kind() == constant.Int && fromName(pr[0]) {
+							if i, ok := constant.Int64Val(k.Value); ok {
+								if i == '0' {
+									lo = true
+								}
+								if i == '9' {
+									hi = true
+								}
+							}
+						}
+					}
+				}
+			}
+		}
+	}
+	key := "GroupNumberFromName / a name is a number only if it is all decimal digits"
+	switch {
+	case signed.IsValid() && !(lo && hi):
+		c.Bad(key, signed, "%s is applied to the name: it accepts a sign, so \"+1\" and \"-0\" address groups although GetGroupNames never lists such names and GroupNameFromNumber never returns them", signedWhat)
+	case (lo && hi) || unsignedParse:
+		c.OK(key, fn.Pos(), "the bytes of the name are tested against '0' and '9' (or parsed unsigned)")
+	default:
+		c.Unknown(key, fn.Pos(), "no digit test and no numeric parse of the name found")
+	}
+}
